@@ -69,7 +69,7 @@ CHECKS = {
          "Av(231) / Av(231,321) / Av(231,312); counters terminate with the least k; West-k iff count<=k; Simion-Schmidt is a bijection "
          "Av_n(123)->Av_n(132) fixing left-to-right minima, undone by its inverse, rejecting other inputs; dihedral group = n-gon symmetries; "
          "alternating = even parity (n>=3); family pattern tables regenerated from perm_properties.py. Exhaustive correspondence |s|<=8.",
-         "Also proved for all permutations: West's theorem (two stack passes sort iff Av(2341, 3-bar5-241)), quick-sortable iff Av(321, 2413, (2143,{(2,2)})), and the mesh patterns of the source characterise the textbook index-level definitions of Baxter, simsun and forest-like permutations. Only the RSK shape (Greene) is a bounded test (evidence.partial).", "5/C12"),
+         "Also proved for all permutations: West's theorem (two stack passes sort iff Av(2341, 3-bar5-241)), quick-sortable iff Av(321, 2413, (2143,{(2,2)})), and the mesh patterns of the source characterise the textbook index-level definitions of Baxter, simsun and forest-like permutations. The tableau of _perm_to_yt is standard, its first row is a longest increasing subsequence and its number of rows a longest decreasing one (Schensted), and the first k rows together are the largest union of k increasing subsequences for every k (Greene: ytShape_eq_RSK), which characterises yt_perm_avoids_22/_32.", "5/C12"),
  "C18": ("Lean 4 theorems: NE shading lemma and its rotations (can_shade/can_simul_shade/shadable_boxes sound for ALL permutations), add_point semantics, region lookups, ascii_plot round trip + correspondence with semantic brute-force oracle",
          "Proved for all meshes, cells and ALL permutations: a licensed shading does not change the set of containing permutations (single, "
          "simultaneous, table); add_point(mu,(x,y),d) is contained exactly in the permutations with an occurrence of mu having a point in the cell; "
